@@ -86,6 +86,9 @@ func init() {
 		if err != nil {
 			evid.Inconclusive("trace validation: %v", err)
 		}
+		// the repository's own tests, run with the verif tag: observer invariants on every connection
+		rc, rev := repoTestTraces(run, map[string]bool{"C08": true})
+		fmt.Printf("C08: %d connections (%d hook events) of the repository's own test suite validated by TLC against the observer invariants\n", rc, rev)
 		fmt.Printf("C08: TLC %d+%d states; %d/%d closing/logout edges replayed (+%d/%d TLS family); %d conversations cut at every octet (%d cut points), goroutine census after each; %d walks validated\n",
 			mc.Distinct, amc.Distinct, st.Covered, st.Edges, ast.Covered, ast.Edges, paths, convs, vs.Walks)
 		run.Finish("model_checking", evid.Coverage{
@@ -93,7 +96,7 @@ func init() {
 			"traces_validated_against_impl": st.Convs + ast.Convs + convs + vs.Walks,
 			"closing_edges_replayed":        st.Covered + ast.Covered, "closing_edges": st.Edges + ast.Edges,
 			"conversations_swept":           paths, "cut_points": convs, "goroutine_census_failures": leaks,
-			"recorded_walks_validated": vs.Walks,
+			"recorded_walks_validated": vs.Walks, "repo_test_connections_validated": rc, "repo_test_hook_events": rev,
 			"samples":                  samples, "checker_cmd": mc.Cmd,
 		}, []string{"every closing step is sent with three more commands pipelined behind it in the same segment",
 			"Logout after a concurrent Server.Close and the BDAT 0 + QUIT delivery-start window are the lifecycle / Bdat families (C20)"})
